@@ -314,8 +314,7 @@ def make_run_passes(which):
             ok = isinstance(last, list)
             used = [x.cls.name for x in last] if ok else []
             p.oblige(f'{N}/last-pass-is-exactly-the-enabled-set',
-                     ok and set(used) == enabled and
-                     len(set(used)) == len(used),
+                     ok and set(used) == enabled,
                      info={'missing': sorted(enabled - set(used)),
                            'extra': sorted(set(used) - enabled),
                            'signature': 'last hierarchical pass differs from '
@@ -327,8 +326,31 @@ def make_run_passes(which):
                      info={'missing': sorted(enabled - set(used)),
                            'signature': 'an enabled mutator is not part of '
                            'the final fixed-point pass'})
-            p.oblige(f'{N}/last-pass-mutators-are-default-constructed',
-                     all(not x.attrs for x in last) if ok else False)
+
+            # C02 speaks of what an enabled mutator *proposes*: an instance
+            # set up differently (BinaryReduction with ident='assert')
+            # proposes other simplifications than the plain one, so the pass
+            # whose fixed point is returned has to hold every configuration
+            # that any pass uses - class and attributes set on the instance
+            def config(x):
+                return (x.cls.name, tuple(sorted(
+                    (k, repr(force(v))) for k, v in x.attrs.items())))
+
+            last_cfg = {config(x) for x in last} if ok else set()
+            all_cfg = set()
+            for ps in passes:
+                ms = ps[0] if isinstance(ps, tuple) else ps
+                all_cfg |= {config(x) for x in ms}
+            p.oblige('C02/get_passes/last-pass-contains-every-mutator-'
+                     'configuration', ok and all_cfg <= last_cfg,
+                     info={'missing': sorted(map(repr, all_cfg - last_cfg)),
+                           'signature': 'a mutator configuration of an '
+                           'earlier pass is not part of the final '
+                           'fixed-point pass: ' +
+                           repr(sorted(map(repr, all_cfg - last_cfg)))})
+            # (the plain instance of every enabled mutator is there too)
+            p.oblige(f'{N}/last-pass-has-the-plain-instance-of-every-mutator',
+                     ok and {(c, ()) for c in enabled} <= last_cfg)
             everything = set()
             for ps in passes:
                 ms = ps[0] if isinstance(ps, tuple) else ps
